@@ -137,6 +137,7 @@ pub unsafe fn i_try_recv_view<RW: QueueRW<Pay>>(n: usize, k: usize, mpmc: bool, 
     let en: u32 = (1 << A_CONSUME) | (1 << A_PUBLISH) | (1 << A_SENDER);
     env_reset(&w, mpmc, budget, en);
     env_set_me_reader(i, reader);
+    G_MY_VIEW = true;
     VIEW_CALLS = 0;
     rt::ENV_MODE = ENV_PROTOCOL;
     let r = w.q.try_recv_view(view_fn, reader);
@@ -388,5 +389,69 @@ pub unsafe fn i_add_stream<RW: QueueRW<Pay>>(n: usize, budget: usize, shared: bo
     kani_cover!(ENV_TAKEN[0] > 0, "producer published during add_stream");
     mem::forget(rx);
     mem::forget(rx2);
+    mem::forget(w);
+}
+
+// ---------------------------------------------------------------------------------------------
+// I6b / I3b: another consumer adds a stream while I publish a list / scan the list
+
+/// add_stream on stream 0 while ANOTHER handle completes an add_stream between my load of the published
+/// list and my compare-exchange: my retry must build on the list that is published then -- the other
+/// stream must still be in the list I publish (otherwise its subscriber silently loses back-pressure and
+/// values, and its position object is retired while still reachable).
+pub unsafe fn i_add_stream_list_race<RW: QueueRW<Pay>>(n: usize) {
+    let w = World::<RW>::arbitrary(n, 1, false, false);
+    let a0 = w.a;
+    let rx = mk_recv(&w, 0);
+    env_reset(&w, false, 1, 1 << A_ADDSTREAM);
+    env_set_me_reader(0, &rx.reader);
+    ENV_PER_POINT = 1;
+    rt::ENV_MODE = ENV_PROTOCOL;
+    let rx2 = rx.add_stream();
+    rt::ENV_MODE = ENV_OFF;
+    let others = if G_EXTRA_POS_CELL != 0 { 1 } else { 0 };
+    assert!(w.q.tail.vf_list_len() == a0.k + 1 + others, "C10/C16: the published list must contain every stream: the original ones, the one added concurrently, and mine");
+    assert!(w.q.tail.vf_list_has_cell(rx2.reader.vf_pos_cell_addr()), "C10: my new stream is in the published list");
+    assert!(w.q.tail.vf_list_has_cell(rx.reader.vf_pos_cell_addr()), "C10/C11: the parent stream is still in the published list");
+    if G_EXTRA_POS_CELL != 0 {
+        assert!(w.q.tail.vf_list_has_cell(G_EXTRA_POS_CELL), "C10/C03/C16: a stream added concurrently by another consumer was dropped from the list by add_stream's retry (its subscriber loses back-pressure and values)");
+    }
+    kani_cover!(G_EXTRA_POS_CELL != 0, "concurrent add_stream taken");
+    mem::forget(rx);
+    mem::forget(rx2);
+    mem::forget(w);
+}
+
+/// try_send_{single,multi} while ANOTHER consumer adds a stream (and consumers advance): at the instant
+/// of my claim the window must have room with respect to EVERY stream of the list published then,
+/// including the one added while I was scanning the old list (guarantee clause C03 in `guarantee`).
+pub unsafe fn i_try_send_addstream<RW: QueueRW<Pay>>(n: usize, kind: SendKind, budget: usize) {
+    let w = World::<RW>::arbitrary(n, 1, false, false);
+    let a0 = w.a;
+    rt::assume(a0.writers >= 1);
+    if kind == SendKind::Single {
+        rt::assume(a0.writers == 1);
+    }
+    env_reset(&w, false, budget, (1 << A_ADDSTREAM) | (1 << A_CONSUME));
+    G_ME_SENDER = true;
+    let v: usize = rt::oracle_usize();
+    let p = Pay::new(v);
+    let pser = p.ser;
+    G_MY_SEND_SER = pser;
+    rt::ENV_MODE = ENV_PROTOCOL;
+    let r = match kind {
+        SendKind::Single => w.q.try_send_single(p),
+        SendKind::Multi => w.q.try_send_multi(p),
+    };
+    rt::ENV_MODE = ENV_OFF;
+    match r {
+        Ok(()) => assert!(G_MY_CLAIMS == 1 && G_MY_TAG_STORES == 1, "C01: an accepted send claims and publishes exactly one count"),
+        Err(TrySendError::Full(back)) => {
+            assert!(G_MY_CLAIMS == 0 && back.ser == pser, "C01: a refused send must not have claimed anything");
+            mem::forget(back);
+        }
+        Err(TrySendError::Disconnected(_)) => assert!(false, "ring-level send never reports Disconnected"),
+    }
+    kani_cover!(G_EXTRA_POS_CELL != 0 && G_MY_CLAIMS == 0, "refused after a concurrent add_stream");
     mem::forget(w);
 }
